@@ -37,6 +37,29 @@ def regional_probe(job):
     return [lib_gdd(mk(base_s, langs=[base])), lib_gdd(mk(s, locales=[loc])), lib_gdd(mk(s, langs=[lang], region=region))]
 
 
+def chain_probe(job):
+    """one FRESH interpreter: a list of selections in order (what was loaded first matters, so the pool's warm workers will not do)"""
+    import subprocess, sys, os, json as _json
+    from common import REPO, VERIF
+    calls = [{"fn": "gdd", "s": s_, "kw": dict({("languages" if k == "langs" else k): v for k, v in kw.items()}, settings={"TIMEZONE": "UTC"})} for s_, kw in job]
+    p = subprocess.run([sys.executable, os.path.join(VERIF, "harness", "c03_worker.py"), REPO], input=_json.dumps(calls, ensure_ascii=False).encode(), stdout=subprocess.PIPE,
+                       stderr=subprocess.PIPE, env=dict(os.environ, PYTHONHASHSEED="0", TZ="UTC", PYTHONDONTWRITEBYTECODE="1"), timeout=600)
+    try:
+        outs = _json.loads(p.stdout.decode().strip().splitlines()[-1])
+    except Exception:  # noqa
+        return [{"e": "WORKER-CRASH"}] * len(job)
+    res = []
+    for o in outs:
+        if "exc" in o:
+            res.append({"e": o["exc"]})
+        elif o["ok"] is None or o["ok"][0] is None:
+            res.append({"r": None})
+        else:
+            d_, per, loc = o["ok"]
+            res.append({"r": "%s.000000|naive|%s|%s" % (d_.replace("T", " "), per, loc)})
+    return res
+
+
 def run(ctx):
     tier = ctx["tier"]
     R = rng("c13")
@@ -196,6 +219,33 @@ def run(ctx):
             if got != want:
                 viol.append({"law": "a regional locale selected after its base language was used applies its own vocabulary", "s": job[3], "selection": how,
                              "earlier_call": {"s": job[0], "languages": [job[1]]}, "expected": want, "observed": got})
+    # a regional locale first, then its plain language, then *another* regional locale of that language (and the first one again): each regional
+    # selection applies its own date order / vocabulary whatever was loaded before it and in whatever order
+    by_lang = collections.defaultdict(list)
+    for r in ld2["locales"]:
+        if "-" in r["name"] and r["lang"] in bases:
+            by_lang[r["lang"]].append(r)
+    ORD = {"DMY": "2021-03-02", "MDY": "2021-02-03", "YMD": None}
+    chain_jobs = []
+    base_order = {r["name"]: r.get("date_order") for r in ld2["langs"]}
+    for lang, regs in by_lang.items():
+        diff = [r for r in regs if r.get("date_order") in ("DMY", "MDY") and r.get("date_order") != base_order.get(lang)]
+        others = [r for r in regs]
+        for target in diff[:3 if tier == "quick" else 50]:
+            first = next((r for r in others if r["name"] != target["name"]), None)
+            if first is None:
+                continue
+            chain_jobs.append(([("02/03/2021", {"locales": [first["name"]]}), ("02/03/2021", {"langs": [lang]}), ("02/03/2021", {"locales": [target["name"]]})],
+                               "%s 00:00:00.000000|naive|day|%s" % (ORD[target["date_order"]], target["name"])))
+    if tier == "quick":
+        keep = [c for c in chain_jobs if c[0][2][1]["locales"][0] in ("en-AU", "en-NZ", "en-CA", "fr-CA", "es-US", "en-IN")]
+        chain_jobs = keep + R.sample(chain_jobs, min(len(chain_jobs), 16))
+    for (job, want), outs in zip(chain_jobs, pmap(chain_probe, [j for j, _ in chain_jobs], chunksize=1, force=True)):
+        o = outs[-1]
+        got = o.get("r") if "r" in o else "ERR:" + o["e"]
+        if got != want:
+            viol.append({"law": "a regional locale applies its own date order whatever locales of the language were loaded before it", "s": job[-1][0], "selection": job[-1][1],
+                         "earlier_calls_in_this_process": [{"s": a, **b} for a, b in job[:-1]], "expected": want, "observed": got})
     auto2 = []
     for s, i in auto:
         r = val(i)
@@ -222,7 +272,7 @@ def run(ctx):
     cov = {"evaluations": len(cases) + len(det), "distinct_nontrivial": len(distinct),
            "rule": "corpus strings × random language subsets/orderings (containing or not the detected language), use_given_order on/off, DEFAULT_LANGUAGES, region vs locale, full autodetection sample; non-trivial = distinct strings with a multi-language result",
            "samples": [{"s": p[0], "languages": p[2], "use_given_order": p[4], "default_languages": p[7]} for p in plan[:5]],
-           "laws_checked": 11, "regional_after_base_sequences": len(reg_jobs), "same_list_both_orders_in_one_process": len(seq_jobs), "law_violations": len(viol), "region_locale_pairs": len(reg), "multi_language_region_selections": len(multi), "of_which_parsed": len(byname), "autodetect_all_languages": len(auto),
+           "laws_checked": 12, "regional_base_regional_chains": len(chain_jobs), "regional_after_base_sequences": len(reg_jobs), "same_list_both_orders_in_one_process": len(seq_jobs), "law_violations": len(viol), "region_locale_pairs": len(reg), "multi_language_region_selections": len(multi), "of_which_parsed": len(byname), "autodetect_all_languages": len(auto),
            "model_compared": len(sub) if "model-build" not in ctx["broken"] else 0, "model_rejected": dict(rej), "model_drift": len(drift),
            "model_drift_samples": [{"s": d["case"]["s"], "langs": d["case"].get("langs"), "model": d["model"], "lib": d["lib"]} for d in drift[:5]]}
     return {"violations": out, "known": [], "coverage": cov, "level": "proof",
